@@ -1,7 +1,7 @@
 """Content pools.  Small on purpose, so that collisions and aliasing happen."""
 
 ARCHES = ["x86_64", "aarch64", "ppc64le", "s390x", "i386", "armhfp"]
-ARCHES_BAD = ["src", "nosrc", "", "x86", "X86_64", "sparc65"]
+ARCHES_BAD = ["src", "nosrc", "", "x86", "X86_64", "sparc65", None, 5, "SRC", "src ", "x86_64 "]
 
 RELEASE_TYPES = ["fast", "ga", "updates", "updates-testing", "eus", "aus", "els", "tus", "e4s"]
 COMPOSE_TYPES = ["test", "ci", "nightly", "production", "development"]
